@@ -172,6 +172,21 @@ def run(facts, tier, ctx):
             p = (ps_[0][1], ps_[0][2])
             iv = dominating_bounds(facts, b, (bi, "term"), p)
             pname = b.local_name(p[0]) or "_%d" % p[0]
+            if iv.get("min", 0) < 1:
+                # second opinion from the effect interpreter's path facts (checks spelled as `match`, helper calls, ...)
+                try:
+                    from . import lib_effect as E_, lib_implicit as I_
+                    ectx = E_.Ctx(facts)
+                    ectx.open_loops = True
+                    ectx.collect_asserts = True
+                    ectx.log_calls = r"BlockSizeSpec::from_size$"
+                    ectx.noinline = [r"BlockSizeSpec::from_size$"]
+                    E_.Interp(ectx, b).run()
+                    mine = [c for c in ectx.calls if c[2] == where and c[3] == b.id]
+                    if mine and all((I_.Prover(facts, c[4] or [], {}).lower(c[1][0]) or 0) >= 1 for c in mine):
+                        iv = dict(iv, min=1)
+                except Exception:
+                    pass
             sample = {"function": b.id, "site": where, "param": pname, "bounds": iv}
             if iv.get("min", 0) >= 1:
                 rz.ok(dict(sample, verdict="ok"))
